@@ -342,10 +342,12 @@ def main(argv=None):
         if sg in open_sigs and sg not in known_hit:
             known_hit.append(sg)
     rc = 0
-    for sg in known_hit:
-        print('KNOWN-FINDING: property=%s %s -- %s (seen in %d runs)' %
+    for sg in sorted(open_sigs):
+        n = total['sigcount'].get(sg, 0)
+        print('KNOWN-FINDING: property=%s %s -- %s (%s)' %
               (cid, sg, open_sigs[sg].get('description', ''),
-               total['sigcount'].get(sg, 0)))
+               'seen in %d runs' % n if n else
+               'listed, not reproduced by this run'))
     nviol = 0
     for sg in new:
         vs = sorted(by_sig[sg], key=lambda v: len(json.dumps(v['plan'])))
